@@ -119,6 +119,9 @@ func runC03(cfg *vh.Config) error {
 		tree *codecgen.J
 	}
 	for i := 0; i < nBase; i++ {
+		if tripped() {
+			break
+		}
 		t := pickTarget()
 		g := codecgen.NewGen(r, t.Env)
 		g.Canonical = true
@@ -180,6 +183,9 @@ func runC03(cfg *vh.Config) error {
 	// ---- stream 2b: generally valid documents in mixed spellings: exactness
 	nMixed := cfg.Scale(250, 2500)
 	for i := 0; i < nMixed; i++ {
+		if tripped() {
+			break
+		}
 		t := pickTarget()
 		g := codecgen.NewGen(r, t.Env)
 		g.MaxDepth = r.Range(1, 4)
@@ -203,6 +209,9 @@ func runC03(cfg *vh.Config) error {
 	nFault := cfg.Scale(700, 7000)
 	disagree := 0
 	for i := 0; i < nFault; i++ {
+		if tripped() || len(bases) == 0 {
+			break
+		}
 		b := vh.Pick(r, bases)
 		ft, f := codecgen.InjectFault(r, b.t.Env, b.tree)
 		if ft == nil {
@@ -242,6 +251,9 @@ func runC03(cfg *vh.Config) error {
 	// ---- stream 4: two members of one unexposed proto oneof (both non-null)
 	nSib := cfg.Scale(40, 600)
 	for i := 0; i < nSib; i++ {
+		if tripped() {
+			break
+		}
 		t := pickTarget()
 		root := t.Env.Lookup(t.Env.Root)
 		var withSib []*codecgen.Prop
@@ -287,6 +299,9 @@ func runC03(cfg *vh.Config) error {
 	// ---- stream 5: scalar values supplied as URL query parameters decode like the JSON document
 	nQuery := cfg.Scale(150, 3000)
 	for i := 0; i < nQuery; i++ {
+		if tripped() {
+			break
+		}
 		t := pickTarget()
 		root := t.Env.Lookup(t.Env.Root)
 		if root.Class != "object" {
